@@ -170,9 +170,23 @@ def run_iso(c):
     return dict(oracle="; ".join(fails[:1]) or None, nontrivial=True, key=["iso", c["x"], c["y"], c["at"], c["epochs"]])
 
 
+def zlib_crc(c):
+    import json
+    import zlib
+    return zlib.crc32(json.dumps(c, sort_keys=True, default=str).encode())
+
+
 def run_impl(c):
     import torch
     from torchdata.nodes import IterableWrapper, MultiNodeWeightedSampler
+    import os
+    # the process environment of a distributed job (RANK / WORLD_SIZE) on every third case: explicitly passed rank and world_size - rank 0
+    # included - decide the stream, not the environment
+    if zlib_crc(c) % 3 == 0:
+        os.environ["RANK"], os.environ["WORLD_SIZE"] = "5", "7"
+    else:
+        os.environ.pop("RANK", None)
+        os.environ.pop("WORLD_SIZE", None)
     if c.get("kind") == "iso":
         return run_iso(c)
     names = [f"d{i}" for i in range(len(c["lens"]))]
